@@ -71,7 +71,7 @@ type fcase struct {
 
 func isQuery(a string) bool {
 	switch a {
-	case "lost", "resplost", "srverr", "empty", "ok+accept", "ok+reject", "ok+accept+cancel":
+	case "lost", "resplost", "srverr", "empty", "ok+accept", "ok+reject", "ok+accept+cancel", "ok+reject+cancel":
 		return true
 	}
 	return false
@@ -239,6 +239,7 @@ type run struct {
 	workerPos  string
 	stopping   bool
 	unscripted int
+	lateSave   bool // one save (PersistNow) after the worker of this session has ended
 	faults     map[string]int
 	notes      []string
 	sessions   []sessRec
@@ -447,9 +448,19 @@ func (s caseSink) OnEvent(evs []*api.LogEvent) error {
 		c.log("X")
 		defer c.endSession("cancel")
 	}
+	if act == "ok+reject+cancel" {
+		// the context is cancelled while the batch is inside the sink, and the sink then fails the batch (a sink that
+		// cannot deliver because of the shutdown). The worker must not move its position. The persist job's final save may
+		// come before or after the worker's last statements: the harness makes one save after the worker has ended
+		// (runCase, lateSave), which is the later of the two orders. In the model: a rejected page, then the graceful end.
+		c.mu.Lock()
+		c.lateSave = true
+		c.mu.Unlock()
+		c.endSession("cancel")
+	}
 	c.mu.Lock()
 	o.sess = c.sessNo
-	o.accepted = act != "ok+reject"
+	o.accepted = act != "ok+reject" && act != "ok+reject+cancel"
 	if o.accepted {
 		if prev+1 > c.hw {
 			c.hw = prev + 1
@@ -597,7 +608,7 @@ func (c *run) onQuery(ctx context.Context, qr *api.QueryRequest, qres *api.Query
 			c.fault("empty")
 			c.log("qe")
 			return nil
-		case a == "ok+accept" || a == "ok+reject" || a == "ok+accept+cancel" || a == "":
+		case a == "ok+accept" || a == "ok+reject" || a == "ok+accept+cancel" || a == "ok+reject+cancel" || a == "":
 			free := a == "" // script exhausted: run undisturbed to the tail, end there
 			if free {
 				c.mu.Lock()
@@ -739,6 +750,16 @@ func runCase(srv *lrsrv.Srv, in fcase) *run {
 		if werr != nil {
 			c.note("session %d: %v", sessNo, werr)
 			kind = "deadline"
+		}
+		c.mu.Lock()
+		late := c.lateSave
+		c.lateSave = false
+		c.mu.Unlock()
+		if late {
+			// the final save of the shutdown, taken after the worker's last statement (a legal order of the two goroutines)
+			if err := sess.PersistNow(); err != nil {
+				c.note("session %d: late save: %v", sessNo, err)
+			}
 		}
 		c.mu.Lock()
 		switch kind {
@@ -1097,6 +1118,10 @@ func fixedCases() []fcase {
 		{N: 10, Script: []string{"srverr", "empty", "ok+accept", "cancel", "grow 2"}},
 		{N: 999, Script: []string{"ok+reject", "crash", "ok+accept", "grow 1001", "ok+accept", "persist", "stop", "ok+reject"}},
 		{N: 2, Script: []string{"ok+accept", "persist", "grow 3", "ok+accept", "crash", "resplost"}},
+		// the shutdown arrives while a batch is inside the sink and the sink then fails it; final save after the worker
+		{N: 5, Script: []string{"ok+reject+cancel", "ok+accept"}},
+		{N: 1500, Script: []string{"ok+accept", "persist", "ok+reject+cancel", "ok+accept", "ok+accept"}},
+		{N: 7, Script: []string{"ok+accept", "grow 3", "ok+reject+cancel", "lost", "ok+accept"}},
 	}
 }
 
